@@ -324,6 +324,27 @@ def run(F, rep):
                       'does not depend on a model left by an earlier pass')
     if n_r2 < 4:
         raise AnalysisBroken('C07.R1: positive returns of fetchUnits/fetchComponent: %d found, 5 confirmed' % n_r2)
+    # M1: looking a key up in the library does not create it
+    rep.rule('C07.M1', 'the importer reads its library (mLibrary) with operator[] only where the key is known to be present (count/find test) or where it is the target of an assignment: operator[] on a std::map INSERTS a null model for an unknown key, '
+                       'and fetchModel treats a key that is present as authoritative ("the model in the library is null") without opening the file any more - a mere query would poison the next resolution')
+    n_m1 = 0
+    for g in F.funcs.values():
+        if not g.file.endswith('/importer.cpp'):
+            continue
+        for c in g.walk():
+            if c.get('k') == 'Call' and c.get('opc') == '[]' and c.get('c') and c['c'][0].get('k') == 'Member' and c['c'][0].get('n') == 'mLibrary':
+                n_m1 += 1
+                par = g.parent(c)
+                is_target = par is not None and ((par.get('k') == 'Call' and par.get('opc') == '=') or (par.get('k') == 'Bin' and par.get('op') == '=')) and par['c'][0] is c
+                kt = render(c['c'][1])
+                present = any((tr and (t == 'mLibrary.count(%s) != 0' % kt or t == 'pFunc()->mLibrary.count(%s) != 0' % kt or t.endswith('mLibrary.count(%s) > 0' % kt) or t.endswith('mLibrary.find(%s) != mLibrary.end()' % kt)))
+                              or (not tr and (t.endswith('mLibrary.count(%s) == 0' % kt) or t.endswith('mLibrary.find(%s) == mLibrary.end()' % kt))) for t, tr in (_fx(F, g, c) or set()))
+                rep.check(is_target or present, 'C07.M1', '%s|mLibrary[%s]' % (g.short.split('::')[-1], kt[:30]), g.where(c),
+                          '%s reads `mLibrary[%s]` without knowing that the key exists: the subscript inserts a null entry for an unknown key' % (g.short, kt[:40]), 'assignment target' if is_target else 'key known to be present')
+    n_acc = sum(1 for g in F.funcs.values() if g.file.endswith('/importer.cpp') for m_ in g.walk() if m_.get('k') == 'Member' and m_.get('n') == 'mLibrary')
+    if n_acc < 6:
+        raise AnalysisBroken('C07.M1: only %d accesses of mLibrary found in importer.cpp (15 confirmed, 3 of them subscripts)' % n_acc)
+    rep.ok('C07.M1', 'scan', None, '%d accesses of mLibrary, %d of them subscripts' % (n_acc, n_m1))
     # the path stack of Units::isDefined()/isResolved() (what resolveImports/hasUnresolvedImports/flattenModel finally ask): shared stacks stay balanced
     import recursion as _rec7
     _rec7.rule_stack_discipline(F, rep, 'C07.P1', lambda g_: g_.file.endswith(('/units.cpp', '/importer.cpp', '/component.cpp', '/importedentity.cpp')), 1, 'units.cpp, importer.cpp and component.cpp')
